@@ -31,6 +31,7 @@ def make_config(seed, tier="quick"):
         # frames above asyncio's 64 KiB high-water mark from some senders (a frame must stay one piece on the wire
         # whatever the other tasks do while its sender waits for the transport)
         huge=random.Random(seed ^ 0xC1464).random() < 0.06,
+        odd_headers=random.Random(seed ^ 0xC140D).random() < 0.2,
         seed=seed,
         eut_role=r.choice(["acceptor", "initiator"]),
         hb=r.choice([1, 2, 3, 3, 30]),
@@ -160,6 +161,13 @@ class SendersSim(PeerSim):
                 if self.cfg.get("huge") and (i + k) % 3 == 0:
                     text += " " + "x" * (70_000 if k % 2 else 140_000)
                 m[58] = text
+                if self.cfg.get("odd_headers") and (i + 2 * k) % 3 == 0:
+                    # a new message object that still carries header fields of an earlier life (cloned from a
+                    # received / journaled message): an explicit PossDupFlag=N, a stale MsgSeqNum
+                    if k % 2 == 0:
+                        m[43] = "N"
+                    if (i + k) % 2 == 0:
+                        m[34] = max(1, self.live().next_num_out + (k % 3) - 1)
             ent = dict(task=i, k=k, mid=mid, type=mtype, status="pending", exc=None)
             ent["ev0"] = self.rec("send_call", i, k)
             self.send_log.append(ent)
